@@ -31,6 +31,8 @@ def _range(*a):
 class Evaluator:
     def __init__(self, lookup):
         self.lookup = lookup      # name -> (value,) or None
+        self.funcs = getattr(lookup, 'funcs', None)      # name -> FunctionDef of a module-level function, or None
+        self.depth = 0
 
     def ev(self, e, env):
         m = getattr(self, 'ev_' + type(e).__name__, None)
@@ -167,6 +169,10 @@ class Evaluator:
         args = [self.ev(a, env) for a in e.args]
         kw = {k.arg: self.ev(k.value, env) for k in e.keywords}
         f = e.func
+        if isinstance(f, ast.Name) and f.id not in env and f.id not in _PURE and self.funcs is not None:
+            fd = self.funcs(f.id)
+            if fd is not None:
+                return self.call_pure(fd, args, kw)
         try:
             if isinstance(f, ast.Name) and f.id in _PURE and f.id not in env:
                 return _PURE[f.id](*args, **kw)
@@ -184,6 +190,40 @@ class Evaluator:
         except Exception as ex:    # pylint: disable=broad-except
             raise NotConstant(str(ex))
         raise NotConstant('call ' + ast.unparse(f))
+
+    def call_pure(self, fd, args, kw):
+        """a module-level function whose body is `[docstring]; return <expression>`: the expression over its parameters"""
+        body = [s for s in fd.body if not (isinstance(s, ast.Expr) and isinstance(s.value, ast.Constant))]
+        if len(body) != 1 or not isinstance(body[0], ast.Return) or body[0].value is None or fd.decorator_list:
+            raise NotConstant('call of ' + fd.name)
+        a = fd.args
+        if a.kwonlyargs or a.kwarg or a.posonlyargs:
+            raise NotConstant('signature of ' + fd.name)
+        names = [p.arg for p in a.args]
+        env = {}
+        if len(args) > len(names) and a.vararg is None:
+            raise NotConstant('arity of ' + fd.name)
+        for n, v in zip(names, args):
+            env[n] = v
+        if a.vararg is not None:
+            env[a.vararg.arg] = tuple(args[len(names):])
+        for k, v in kw.items():
+            if k not in names or k in env:
+                raise NotConstant('keyword of ' + fd.name)
+            env[k] = v
+        defaults = dict(zip(names[len(names) - len(a.defaults):], a.defaults)) if a.defaults else {}
+        for n in names:
+            if n not in env:
+                if n not in defaults:
+                    raise NotConstant('missing argument of ' + fd.name)
+                env[n] = self.ev(defaults[n], {})
+        self.depth += 1
+        if self.depth > 8:
+            raise NotConstant('recursion')
+        try:
+            return self.ev(body[0].value, env)
+        finally:
+            self.depth -= 1
 
     # comprehensions
     def _gen(self, gens, env, emit):
